@@ -90,6 +90,11 @@ def make_case(rng):
         q = np.asarray(w[:4])[:, None] + 10 ** rng.uniform(-9, -3) * rng.uniform(-1, 1, (4, 3))
         mclass, rank, nd, start = "collapse-witness", 1, int(w[4]), 0.0
         a1, b1, a2, b2 = q
+    if mclass == "vonmises" and rng.uniform() < 0.15:
+        # exactly isotropic at some frequencies: all four moments exactly zero (the uniform density 1/360 per degree)
+        z = rng.uniform(0, 1, np.shape(a1)) < 0.5
+        a1, b1, a2, b2 = (np.where(z, 0.0, np.asarray(x)) for x in (a1, b1, a2, b2))
+        mclass = "vonmises+exactly-isotropic"
     # the same uniform grid written with values in [0,360): the 360 -> 0 seam then lies inside the array
     wrap = bool(start != 0.0 and rng.uniform() < 0.5)
     return {"shape_rank": rank, "mclass": mclass, "a1": np.asarray(a1), "b1": np.asarray(b1), "a2": np.asarray(a2),
